@@ -143,8 +143,19 @@ def run(ctx):
             res.add(Finding('C10', 'C10.b', 'R-SIBLING', it.file, it.qualname, it.node.lineno, 'metadata filter of %s' % c.name,
                             '%s does not use the shared matcher: its listing disagrees with the other cassettes on list / pattern / '
                             'operator / absent-key filters' % c.name))
+    from . import c14, c16
+    top = repo.method('TapeCassette', 'match_against_recorded_metadata')
+    okm, whym = c14.conjunction_ast(top)
+    cb.instance('shared matcher is a per-key conjunction (no early answer)', top.qualname, okm, detail=whym)
+    if not okm:
+        res.add(Finding('C10', 'C10.b', 'R-SIBLING', top.file, top.qualname, top.node.lineno, 'top-level conjunction', whym))
     # ---------------- C10.c
     fac = repo.cls('S3BasicFacade')
+    okl, whyl = c16.limit_counter(fac.lookup('iter_keys'))
+    cc.instance('S3 facade: limit counts only keys that passed the filters (min(limit, matches))', fac.lookup('iter_keys').qualname, okl, detail=whyl)
+    if not okl:
+        res.add(Finding('C10', 'C10.c', 'R-SENTINEL', fac.module.relpath, fac.lookup('iter_keys').qualname, fac.lookup('iter_keys').node.lineno,
+                        'limit counter', whyl))
     for c, fn in ((mem, mem.lookup('iter_recording_ids')), (fil, fil.lookup('iter_recording_ids')), (s3, s3.lookup('iter_recording_ids')),
                   (fac, fac.lookup('iter_keys'))):
         bad = []
